@@ -1,6 +1,7 @@
 package c12
 
 import (
+	"crypto/ecdsa"
 	"fmt"
 	"math"
 	mrand "math/rand"
@@ -375,9 +376,23 @@ func (p *point) signProposal(b *types.Block, proof []byte) *types.BlockProposal 
 	return prop
 }
 
-func (p *point) hostileProof(label string) ([]byte, string) {
+// proposerData is the message a proposer's sortition proof is checked against on the receiving node.
+func (p *point) proposerData() []byte {
+	head := p.v.r.Chain.Head
+	return append(append(head.Seed().Bytes(), common.ToBytes(blockchain.ProposerRole)...), common.ToBytes(head.Height()+1)...)
+}
+
+// hostileProof draws a sortition proof; key is the key the receiver will verify it against (nil if unknown).
+func (p *point) hostileProof(label string, key *ecdsa.PrivateKey) ([]byte, string) {
 	t := p.t
-	switch pick(t, label, 6) {
+	switch pick(t, label, 10) {
+	case 6, 7, 8, 9:
+		c := vrfCtx{key: key, msg: p.proposerData()}
+		if p.proposer != nil && key != nil && p.proposer.Key == key {
+			c.honest = p.proof
+		}
+		proof, l := hostileVrfProof(t, label, c)
+		return proof, "proof=" + l
 	case 0:
 		return nil, "proof=nil"
 	case 1:
@@ -437,7 +452,13 @@ func (p *point) evalHeader() {
 		evid.Count("hdr.gate_rejected.Block.IsValid")
 	}
 	// as a proposal of the current round
-	proof, pl := p.hostileProof("proposalProof")
+	var proofKey *ecdsa.PrivateKey
+	if b.Header != nil && b.Header.ProposedHeader != nil {
+		if addr, err := crypto.PubKeyBytesToAddress(b.Header.ProposedHeader.ProposerPubKey); err == nil && w.ByAddr[addr] != nil {
+			proofKey = w.ByAddr[addr].Key
+		}
+	}
+	proof, pl := p.hostileProof("proposalProof", proofKey)
 	var prop *types.BlockProposal
 	if b.Header == nil && pick(t, "nilBlockProposal", 2) == 0 {
 		prop = p.signProposal(nil, proof)
@@ -457,7 +478,9 @@ func (p *point) evalHeader() {
 	if err := dec.FromBytes(wire); err != nil {
 		t.Fatalf("own encoding of a proposal does not decode: %v", err)
 	}
-	inP := func() string { return fmt.Sprintf("proposal{%s %s} wire=%x state=%s", blockDesc(dec.Block), pl, clip(wire, 600), p.stateClass()) }
+	inP := func() string {
+		return fmt.Sprintf("proposal{%s %s} wire=%x state=%s", blockDesc(dec.Block), pl, clip(wire, 600), p.stateClass())
+	}
 	var valid bool
 	p.runFast("BlockProposal.IsValid", inP, func() { valid = dec.IsValid() })
 	if !valid {
@@ -485,12 +508,12 @@ func (p *point) evalHeader() {
 func (p *point) evalProof() {
 	t, w := p.t, p.w
 	round := p.v.r.Chain.Round()
-	proof, pl := p.hostileProof("proofProposal")
-	pp := &types.ProofProposal{Proof: proof, Round: rapid.SampledFrom([]uint64{round, round, round, round + 1, round + 29, round + 30, 0, math.MaxUint64}).Draw(t, "proofRound")}
 	a := w.Actors[pick(t, "proofSigner", len(w.Actors))]
 	if p.proposer != nil && pick(t, "byProposer", 2) == 0 {
 		a = w.ByAddr[p.proposer.Addr]
 	}
+	proof, pl := p.hostileProof("proofProposal", a.Key)
+	pp := &types.ProofProposal{Proof: proof, Round: rapid.SampledFrom([]uint64{round, round, round, round + 1, round + 29, round + 30, 0, math.MaxUint64}).Draw(t, "proofRound")}
 	h := crypto.SignatureHash(pp)
 	sig, _ := crypto.Sign(h[:], a.Key)
 	var sl string
@@ -561,7 +584,9 @@ func (p *point) evalVote() {
 	}
 	evid.Count("vote." + hl)
 	evid.Count("vote." + sl)
-	in := func() string { return fmt.Sprintf("vote{%+v %s voter=%s} wire=%x head=%d", dec.Header, sl, a, wire, head.Height()) }
+	in := func() string {
+		return fmt.Sprintf("vote{%+v %s voter=%s} wire=%x head=%d", dec.Header, sl, a, wire, head.Height())
+	}
 	if !dec.IsValid() {
 		evid.Count("vote.gate_rejected")
 		return
@@ -673,7 +698,9 @@ func (p *point) evalKeys() {
 	flipKey := sim.DeriveKey(w.P.KeySeed^0x77, a.Idx)
 	if pick(t, "publicKeyMsg", 2) == 0 {
 		k := &types.PublicFlipKey{Epoch: ep}
-		switch pick(t, "flipKeyClass", 6) {
+		switch pick(t, "flipKeyClass", 9) {
+		case 6, 7, 8:
+			k.Key, _ = hostilePrivScalar(t, "flipKeyScalar")
 		case 0:
 			k.Key = nil
 		case 1:
@@ -693,7 +720,9 @@ func (p *point) evalKeys() {
 		if err := dec.FromBytes(wire); err != nil {
 			t.Fatalf("own encoding of a flip key does not decode: %v", err)
 		}
-		in := func() string { return fmt.Sprintf("publicFlipKey{key(%d)=%x epoch=%d (current %d) %s sender=%s} wire=%x", len(dec.Key), clip(dec.Key, 8), dec.Epoch, epoch, sl, a, wire) }
+		in := func() string {
+			return fmt.Sprintf("publicFlipKey{key(%d)=%x epoch=%d (current %d) %s sender=%s} wire=%x", len(dec.Key), clip(dec.Key, 8), dec.Epoch, epoch, sl, a, wire)
+		}
 		var err error
 		p.runFast("KeysPool.AddPublicFlipKey", in, func() { err = p.v.keys.AddPublicFlipKey(dec, false) })
 		evid.Count("keys.public.reached")
@@ -705,8 +734,10 @@ func (p *point) evalKeys() {
 		return
 	}
 	pkg := &types.PrivateFlipKeysPackage{Epoch: ep}
-	class := pick(t, "packageClass", 6)
+	class := pick(t, "packageClass", 9)
 	switch class {
+	case 6, 7, 8:
+		pkg.Data, _ = hostileEcies(t, "package", flipKey, nil)
 	case 0:
 		pkg.Data = nil
 	case 1:
@@ -741,7 +772,9 @@ func (p *point) evalKeys() {
 	if err := dec.FromBytes(wire); err != nil {
 		t.Fatalf("own encoding of a keys package does not decode: %v", err)
 	}
-	in := func() string { return fmt.Sprintf("keysPackage{data(%d) class=%d epoch=%d (current %d) %s sender=%s} wire=%x", len(dec.Data), class, dec.Epoch, epoch, sl, a, clip(wire, 300)) }
+	in := func() string {
+		return fmt.Sprintf("keysPackage{data(%d) class=%d epoch=%d (current %d) %s sender=%s} wire=%x", len(dec.Data), class, dec.Epoch, epoch, sl, a, clip(wire, 300))
+	}
 	var err error
 	p.runFast("KeysPool.AddPrivateKeysPackage", in, func() { err = p.v.keys.AddPrivateKeysPackage(dec, false) })
 	evid.Count("keys.package.reached")
@@ -780,7 +813,7 @@ func (p *point) keysScenario(a *sim.Actor) {
 		pairs = append(pairs, rapid.SampledFrom([][]byte{{}, {1, 2, 3}, make([]byte, 113)}).Draw(t, "pair"))
 	}
 	arr, _ := (&mempool.VerifKeysArray{Pairs: pairs}).ToBytes()
-	class := rapid.SampledFrom([]string{"encrypted-array", "encrypted-array", "encrypted-junk", "encrypted-empty", "bitflip", "truncated", "junk"}).Draw(t, "scenarioPackage")
+	class := rapid.SampledFrom([]string{"encrypted-array", "ecies-constant", "encrypted-junk", "encrypted-empty", "bitflip", "truncated", "junk", "ecies-constant", "ecies-constant"}).Draw(t, "scenarioPackage")
 	seed := int64(rapid.Uint32().Draw(t, "eciesSeed"))
 	var data []byte
 	switch class {
@@ -791,6 +824,11 @@ func (p *point) keysScenario(a *sim.Actor) {
 		} else if class == "truncated" && len(data) > 1 {
 			data = data[:pick(t, "scenarioCut", len(data))]
 		}
+	case "ecies-constant":
+		honest, _ := ecies.Encrypt(mrand.New(mrand.NewSource(seed)), &pub.PublicKey, arr, nil, nil)
+		var l string
+		data, l = hostileEcies(t, "scenario", flipKey, honest)
+		class += ":" + l
 	case "encrypted-junk":
 		data, _ = ecies.Encrypt(mrand.New(mrand.NewSource(seed)), &pub.PublicKey, junk(t, "scenarioPlain", 1, 60), nil, nil)
 	case "encrypted-empty":
